@@ -23,6 +23,8 @@ def make_value(vs, n, tiny=False):
             return float(x) + 0.5
         if e == 'int':
             return int(x)
+        if e == 'bigint':
+            return 2**53 + 1 + 2 * int(x)  # not representable in float64
         if e == 'bool':
             return bool(x % 2)
         if e == 'str':
